@@ -154,13 +154,10 @@ def run(chk):
     cpp_twins(chk, fails, 2 if quick else 12, 12 if quick else 40)
     chk.log(f"{len(ser_cases)} codec cases, {len(lay_cases)} layout cases; implementation-side failures: {len(fails)}")
     chk.coverage["traces_validated_against_impl"] = len(ser_cases) + len(lay_cases)
-    mism_s, mism_l = [], []
-    if broken is None:
-        try:
-            mism_s = common.run_cases("Serde", ser_cases)
-            mism_l = common.run_cases("Layout", lay_cases, shard=150)
-        except common.CoqError as e:
-            broken = f"correspondence could not be evaluated: {e}"
+    mism_s, tr_s, broken = common.run_model_and_translated(chk, "Serde", "SerdeGen", ser_cases, broken)
+    n_s = chk.coverage.get("cases_also_run_on_the_translated_source", 0)
+    mism_l, tr_l, broken = common.run_model_and_translated(chk, "Layout", "LayoutGen", lay_cases, broken, shard=150)
+    chk.coverage["cases_also_run_on_the_translated_source"] = n_s + chk.coverage.get("cases_also_run_on_the_translated_source", 0)
     fails.sort(key=lambda f: len(json.dumps(f, default=repr)))
     for f in fails[:3]:
         chk.violation(f)
@@ -171,7 +168,13 @@ def run(chk):
         for i in mism_l[:2]:
             chk.violation({"kind": "model-vs-implementation", "correspondence": "Corr.Layout.check_case", "schema": meta_l[i][0],
                            "unroll": meta_l[i][1]}, no_failing_input=True)
-        if not mism_s and not mism_l and broken is not None:
+        for i in ([] if (mism_s or mism_l) else tr_s[:2]):
+            chk.violation({"kind": "translated-source-vs-implementation", "correspondence": "Corr.SerdeGen.check_translated", "schema": meta_s[i][0],
+                           "struct": meta_s[i][1], "value": meta_s[i][2]}, no_failing_input=True)
+        for i in ([] if (mism_s or mism_l) else tr_l[:2]):
+            chk.violation({"kind": "translated-source-vs-implementation", "correspondence": "Corr.LayoutGen.check_translated", "schema": meta_l[i][0],
+                           "unroll": meta_l[i][1]}, no_failing_input=True)
+        if not mism_s and not mism_l and not tr_s and not tr_l and broken is not None:
             chk.violation({"kind": "proof-obligation", "broken": broken, "theorem": "Props/C15.v"}, no_failing_input=True)
     chk.assumptions += ["the generated C++ codecs are compiled and run on a few twins here (encode = canonical bytes, decode of canonical bytes = value) and at length by the C03 check",
                         "DBC text and generated C sources are compared verbatim between twins (implementation side); the Coq theorems cover the Python codec and the layout every CAN back end consumes"]
